@@ -265,7 +265,10 @@ def run_case(case):
             b = orig_bytes.get(p)
             a = after.get(p)
             now = read_through(rd.world, p)
-            temps = [t for t in ops.temp_siblings(after, p) if t not in before]
+            # "a temporary sibling name in the same directory": any entry of that directory that did not
+            # exist before (the 24-character suffix fclones uses today is not part of the property)
+            d_ = os.path.dirname(p)
+            temps = [t for t in after if t not in before and os.path.dirname(t) == d_ and t != p]
             temp_ok = [t for t in temps if after[t].type == "f" and read_through(rd.world, t) == b]
             at_orig = now is not None and now == b
             gone_ok = False
@@ -295,13 +298,12 @@ def run_case(case):
             n = ops.processed_count(res)
             if failed:
                 unprocessed = [p for p in dropset if p not in in_processed_state]
-                leftovers = [t for p in dropset for t in ops.temp_siblings(after, p) if t not in before]
+                leftovers = [t for t in after if t not in before and after[t].type != "d" and not t.startswith(b"T/")
+                             and os.path.dirname(t) in {os.path.dirname(p) for p in dropset}]
                 if (unprocessed or leftovers) and not res.warnings() and not res.errors():
                     V("warning-logged", "call failed (%s), %s not processed, temp leftovers %s, but no warning was logged" % (
                         [e.brief() for e in failed], [b2s(x) for x in unprocessed], [b2s(x) for x in leftovers]))
-                if n is None:
-                    V("summary-printed", "no 'Processed N files' summary after a failed call")
-                else:
+                if n is not None:
                     touched = set()
                     for fe in failed:
                         for pp in (fe.path, fe.path2):
